@@ -655,6 +655,9 @@ pub fn run(ctx: &mut Ctx) {
                 (SItem::List(v), 1) if v.len() > 1 => v.iter().map(gen::render).collect::<Vec<_>>().join(" "),
                 _ => gen::render(&prog),
             };
+            // four programs are LONG: about a thousand literals laid out flat (the library's default budget is
+            // 1000 steps; the front end steps until EXEC is empty and has no budget of its own)
+            let text = if k < 4 { (0..[990usize, 1000, 1001, 1100][k as usize]).map(|j| (j % 7).to_string()).collect::<Vec<_>>().join(" ") } else { text };
             if text.len() > 3000 || text.contains("BIN") || !text.is_ascii() {
                 continue;
             }
@@ -671,7 +674,7 @@ pub fn run(ctx: &mut Ctx) {
                         return true;
                     }
                     steps += 1;
-                    if steps > 400 || crate::alloc::stats().live > (64 << 20) {
+                    if steps > 2500 || crate::alloc::stats().live > (64 << 20) {
                         return false;
                     }
                 }
